@@ -3,6 +3,7 @@ package props
 import (
 	"fmt"
 	"go/types"
+	"sort"
 	"strings"
 
 	"golang.org/x/tools/go/ssa"
@@ -134,7 +135,74 @@ func checkDeltaConstruction(p *core.Prog, r *core.Report, rule string) {
 				f, _ := core.LoadedField(rg.X)
 				return f == kvF
 			}
+			// the merged form: one literal whose Operation (and OldValue) are chosen by the found flag —
+			//   op, old := CREATE, nil; if val, found := getLast(key); found { op, old = UPDATE, val }
+			if ph, isPhi := one("Operation").(*ssa.Phi); isPhi && op == "UNSET" {
+				if keyP == nil || one("Key") != ssa.Value(keyP) {
+					bad = append(bad, "Key is not the key parameter")
+				}
+				nv := one("NewValue")
+				if !(valP != nil && nv != nil && (nv == ssa.Value(valP) || copiedFrom(fn, nv, valP))) {
+					bad = append(bad, "NewValue is not (a copy of) the value parameter")
+				}
+				oldPhi, _ := one("OldValue").(*ssa.Phi)
+				var ops []string
+				for ei, e := range ph.Edges {
+					k, isK := e.(*ssa.Const)
+					if !isK || k.Value == nil {
+						bad = append(bad, "Operation chosen among non-constant values")
+						continue
+					}
+					eop := opName[k.Value.ExactString()]
+					ops = append(ops, eop)
+					pred := ph.Block().Preds[ei]
+					var oldV ssa.Value
+					if oldPhi != nil && oldPhi.Block() == ph.Block() {
+						oldV = oldPhi.Edges[ei]
+					}
+					okEdge := false
+					for _, fi := range founds {
+						if fi.found == nil || len(fi.call.Call.Args) < 2 || fi.call.Call.Args[1] != ssa.Value(keyP) {
+							continue
+						}
+						want := eop == "UPDATE"
+						es := edgeOf(fi.found, want) // edges on which found == want
+						// the phi edge pred→block is taken only with found == want: either pred is only reachable over such an edge, or
+						// the edge itself is one of them
+						direct := false
+						for _, x := range es {
+							if x.From == pred && x.From.Succs[x.Idx] == ph.Block() {
+								direct = true
+							}
+						}
+						q := core.PathQuery{Fn: fn, CutEdge: func(x core.Edge) bool { return containsEdge(es, x) }}
+						_, reach := q.CanReach(nil, func(in ssa.Instruction) bool { return in == pred.Instrs[0] })
+						if len(es) > 0 && (direct || !reach) {
+							okEdge = true
+							if want && oldV != fi.old {
+								bad = append(bad, "OldValue of the UPDATE alternative is not the value returned by getLast(key)")
+							}
+							if !want {
+								if c, ok := oldV.(*ssa.Const); oldV != nil && (!ok || !c.IsNil()) {
+									bad = append(bad, "OldValue of the CREATE alternative is not nil")
+								}
+							}
+						}
+					}
+					if !okEdge {
+						bad = append(bad, eop+" alternative is not tied to the found flag of getLast(key)")
+					}
+				}
+				sort.Strings(ops)
+				if strings.Join(ops, ",") != "CREATE,UPDATE" {
+					bad = append(bad, fmt.Sprintf("operation alternatives are %v", ops))
+				}
+				total++ // the literal stands for two deltas
+				op = "CREATE|UPDATE"
+				construct = fmt.Sprintf("%s/delta#%d(%s)", fname, i+1, op)
+			}
 			switch op {
+			case "CREATE|UPDATE":
 			case "CREATE", "UPDATE":
 				if keyP == nil || one("Key") != ssa.Value(keyP) {
 					bad = append(bad, "Key is not the key parameter")
